@@ -54,7 +54,7 @@ pub fn script(max_ops: usize, with_overlaps: bool) -> impl Strategy<Value = SetS
     let shallow = (
         prop_oneof![4 => Just(0u8), 2 => Just(1u8), 2 => Just(2u8), 2 => Just(3u8)],
         gen::cell_spec(2, 29),
-        proptest::collection::vec((any::<u16>(), 0u8..9), 0..max_ops),
+        proptest::collection::vec((any::<u16>(), prop_oneof![9 => 0u8..9, 1 => Just(10u8)]), 0..max_ops),
         proptest::collection::vec((any::<u16>(), 0u8..6, any::<u8>()), 0..=ov),
         proptest::collection::vec(any::<u16>(), 0..=(if with_overlaps { 4 } else { 0 })),
         any::<u64>(),
@@ -129,6 +129,26 @@ pub fn build(s: &SetScript) -> Built {
                     set.splice(i..=i, kids);
                 }
             }
+            10 => {
+                // aligned subsample: replace each sibling of the picked cell that is present by ONE descendant
+                // with the same relative digits (so finer cells sit exactly one coarse stride apart)
+                let c = set[i];
+                if let Some(p) = tree::parent(&c) {
+                    let depth = 1 + (pick as i32 % 2);
+                    if c.res >= 2 && c.res + depth <= max_res {
+                        let rel = (pick as u64 >> 3) & ((1u64 << (2 * depth)) - 1);
+                        let mut out = Vec::with_capacity(set.len());
+                        for x in &set {
+                            if tree::parent(x) == Some(p) {
+                                out.push(Cell { res: x.res + depth, face: x.face, quintant: x.quintant, pos: (x.pos << (2 * depth)) | rel });
+                            } else {
+                                out.push(*x);
+                            }
+                        }
+                        set = out;
+                    }
+                }
+            }
             6..=7 => {
                 if set.len() > 1 {
                     set.remove(i);
@@ -199,11 +219,21 @@ pub fn build(s: &SetScript) -> Built {
             input.push(c);
         }
     }
-    // permutation (Fisher-Yates driven by the generated seed)
-    let mut x = s.perm_seed | 1;
-    for i in (1..input.len()).rev() {
-        let j = (lcg(&mut x) % (i as u64 + 1)) as usize;
-        input.swap(i, j);
+    // order: mostly a generated permutation (Fisher-Yates), sometimes ascending or descending numeric ID
+    // order (what a caller gets from a sorted column or from uncompact / cell_to_children)
+    match s.perm_seed % 7 {
+        5 => input.sort_by_key(crate::oracle::codec::encode),
+        6 => {
+            input.sort_by_key(crate::oracle::codec::encode);
+            input.reverse();
+        }
+        _ => {
+            let mut x = s.perm_seed | 1;
+            for i in (1..input.len()).rev() {
+                let j = (lcg(&mut x) % (i as u64 + 1)) as usize;
+                input.swap(i, j);
+            }
+        }
     }
     let finest = input.iter().map(|c| c.res).max().unwrap_or(-1);
     Built { root, antichain, input, injected_overlaps: injected, duplicates: s.dups.len(), deleted, finest }
